@@ -6,7 +6,7 @@ wt=${TRYMUT_WT:-/tmp/mx}
 name=$1; shift
 p=$VERIF/seeded/$name/patch.diff
 log=$VERIF/seeded/$name/detect.log
-: > $log
+: > $log; rm -rf $VERIF/seeded/$name/replays
 if [ ! -d $wt ]; then git -C /repo worktree add --detach $wt HEAD >/dev/null 2>&1; fi
 git -C $wt checkout -q --detach $(git -C /repo rev-parse HEAD); git -C $wt reset -q --hard
 if ! git -C $wt apply $p 2>>$log; then echo "$name: patch does not apply" | tee -a $log; exit 2; fi
